@@ -10,7 +10,14 @@ uint64_t *app_final_acc, *app_final_cnt, *app_init_calls, *app_fini_calls;
 void (*app_dispatch_hook)(lp_id_t me, uint64_t ticks, unsigned type, const void *pl, unsigned size);
 
 static inline uint64_t rotl64(uint64_t x, int k) { return (x << k) | (x >> (64 - k)); }
-static inline uint64_t mix(uint64_t x, uint64_t v) { return rotl64((x ^ v) * GOLD, 23); }
+static inline uint64_t mix(uint64_t x, uint64_t v)
+{
+	uint64_t a = x ^ v;
+	a ^= a << 13;
+	a ^= a >> 7;
+	a ^= a << 17;
+	return a + GOLD;
+}
 
 double app_ticks_to_time(uint64_t ticks) { return ldexp((double)ticks, -(int)app_prog.grid_exp); }
 uint64_t app_time_to_ticks(double t) { return (uint64_t)ldexp(t, (int)app_prog.grid_exp); }
